@@ -40,9 +40,9 @@ class C04(common.Spec):
         d = case['def']
         kind = case['kind']
         if kind == 'timer':
-            return type('SubTimer', (edzed.Timer,), {}) if d.get('subclass') else edzed.Timer
+            return type('SubTimer', (type('MidTimer', (edzed.Timer,), {}),), {}) if d.get('subclass') else edzed.Timer
         if kind == 'inputexp':
-            return type('SubInputExp', (edzed.InputExp,), {}) if d.get('subclass') else edzed.InputExp
+            return type('SubInputExp', (type('MidInputExp', (edzed.InputExp,), {}),), {}) if d.get('subclass') else edzed.InputExp
         # timed states may be declared by TIMERS alone
         ns = {'STATES': list(d.get('states_decl', d['states'])),
               'EVENTS': [[ev, frm, nxt] for ev, frm, nxt in d['events']],
